@@ -257,6 +257,7 @@ theorem round_noninterference_top (st : NodeSt) (m : NMsg) (now : Time) (payload
   dsimp only
   split
   · rename_i op _ _
+    unfold putOperationOnce
     cases hp : putOperation (processMessage st m now payloadOf).st op with
     | none => exact h
     | some st' =>
